@@ -104,11 +104,11 @@ impl<T> OneShotShared<T> {
           }
         }
       }
-      // If state was WRITING, TAKEN, or CLOSED, wake the receiver if needed.
-      else if self.state.load(Ordering::Relaxed) != STATE_TAKEN
-        && self.state.load(Ordering::Relaxed) != STATE_SENT
-      {
-        // Avoid waking if value is there or taken
+      // If state was WRITING, TAKEN, or CLOSED, wake the receiver if needed. TAKEN included: a
+      // receiver that took the value and polls `recv()` again parks while senders are alive
+      // and must be told that the last one is gone.
+      else if self.state.load(Ordering::Relaxed) != STATE_SENT {
+        // Avoid waking if the value is there
         self.receiver_waker.wake();
       }
     }
@@ -245,7 +245,12 @@ impl<T> OneShotShared<T> {
         }
       }
     } else if current_state == STATE_TAKEN {
-      Err(TryRecvError::Empty) // Already taken, effectively empty for subsequent calls
+      // Already taken: empty for subsequent calls, and disconnected once the senders are gone
+      if self.sender_count.load(Ordering::Acquire) == 0 {
+        Err(TryRecvError::Disconnected)
+      } else {
+        Err(TryRecvError::Empty)
+      }
     } else if current_state == STATE_CLOSED {
       Err(TryRecvError::Disconnected)
     } else {
